@@ -181,6 +181,26 @@ func skylightBuild(base string, seed uint64, thorough bool) (*skylightDirs, erro
 			}
 			hs = append(hs, witness.OriginHash(origin))
 		}
+		if i == 0 {
+			// a log the mirror is still catching up with: witnessed at 600, the first add-entries request broke off after
+			// two complete packages — entry bundles and hash tiles are on disk, the mirror checkpoint is not yet
+			origin := fmt.Sprintf("mirrored%d.sky.example/catchingup", i)
+			ml, err := realdir.NewMLog(origin, seed*23+uint64(i*10+7))
+			if err != nil {
+				return nil, err
+			}
+			if err := ws.AddLog(ml, true); err != nil {
+				return nil, err
+			}
+			if err := ml.Grow(600); err != nil {
+				return nil, err
+			}
+			if err := ws.AddCheckpoint(ml, 0, 600); err != nil {
+				return nil, err
+			}
+			ws.AddEntriesCut(ml, 0, 600, 600, 2)
+			hs = append(hs, witness.OriginHash(origin))
+		}
 		d.wits = append(d.wits, ws)
 		d.whash = append(d.whash, hs)
 	}
